@@ -837,6 +837,44 @@ int structure_words(rng_t* r, uint64_t* w, uint64_t n, unsigned bits) {
       memset(w + (n - (z < n ? z : n - 1)), 0, (z < n ? z : n - 1) * 8);
       return 7;
     }
+    case 14: {
+      // relations BETWEEN the words of a vector, which independent draws never produce: (a) a small alphabet {-v, 0, +v} (ternary
+      // secrets, gadget digits: equal and opposite values all over the place); (b) every word in one narrow signed or unsigned
+      // range (int32, uint32, int16: differences and sums that need one bit more than the operands)
+      const unsigned sub = (unsigned)((t >> 8) % 5);
+      const unsigned vb = bits > 2 ? (unsigned)((t >> 16) % (bits - 1)) : 0;
+      const uint64_t v = ((uint64_t)1 << vb) | (mix64(t) & (((uint64_t)1 << vb) - 1));
+      for (uint64_t i = 0; i < n; i++) {
+        const uint64_t u = mix64(t + i * 0x9E3779B97F4A7C15ull);
+        switch (sub) {
+          case 0: w[i] = (u % 3 == 0) ? 0 : ((u % 3 == 1 || bits >= 64) ? v : (uint64_t)(-(int64_t)v)); break;
+          case 1: w[i] = ((u & 1) || bits >= 64) ? v : (uint64_t)(-(int64_t)v); break;
+          case 2: if (bits >= 32) w[i] = bits >= 64 ? (u >> 32) : (uint64_t)(int64_t)(int32_t)(uint32_t)u; break;   // all int32 (uint32 for unsigned domains)
+          case 3: if (bits >= 33) w[i] = u >> 32; break;                                                           // all in [0, 2^32)
+          default: if (bits >= 16) w[i] = bits >= 64 ? (u >> 48) : (uint64_t)(int64_t)(int16_t)(uint16_t)u; break; // all int16
+        }
+      }
+      return 11;
+    }
+    case 15: {
+      // the second half mirrors the first: w[n-i] = +-w[i], exactly or up to a small difference (self-adjoint / anti-symmetric
+      // polynomials and nearly cancelling pairs at mirrored positions; the maps X -> X^p pair exactly these positions)
+      if (n < 4) return 0;
+      const unsigned sub = (unsigned)((t >> 8) & 3);
+      for (uint64_t i = 1; i < n - i; i++) {
+        const int64_t x = (int64_t)w[i];
+        int64_t y = (sub & 1) && bits < 64 ? -x : x;
+        if (sub & 2) y += (int64_t)(mix64(t + i) % 3) - 1;   // +-1 off
+        if (bits < 64) {
+          const int64_t mx = (int64_t)(((uint64_t)1 << bits) - 1);
+          if (y > mx) y = mx;
+          if (y < -mx) y = -mx;
+        }
+        w[n - i] = (uint64_t)y;
+      }
+      if (sub == 1) w[n / 2] = 0;  // exactly anti-symmetric: the middle coefficient is its own mirror image
+      return 12;
+    }
     default:
       return 0;
   }
